@@ -54,7 +54,7 @@ groups = {
  'C09': ['fnRowsSrc', 'cellLengthFixed', 'cellLengthOther', 'cellBytesCases', 'newBitmapSrc', 'bitmapBitSrc', 'bitmapBitCountSrc',
          'bitmapCountSrc', 'readLenEncIntSrc', 'dig2bytes', 'formatHeaderSizeSrc'] + [k for k in defs if k.startswith('cellBytesBody')]
         + ['getValuesFromRowSrc', 'getIdentifiesFromRowSrc'] + TYPES,
- 'C10': ['cellLengthFixed', 'cellBytesCases'] + bodies(1, 13, 2, 9, 3, 4, 5, 8, 16, 247, 248, 254) + TYPES,
+ 'C10': ['cellLengthFixed', 'cellBytesCases'] + bodies(1, 13, 2, 9, 3, 4, 5, 8, 16, 247, 248, 254) + TYPES + ROWCONV,
  'C11': ['dig2bytes', 'cellBytesCases', 'cellLengthOther'] + bodies(246),
  'C12': ['printTimestampSrc', 'zeroTimestampInit', 'cellBytesCases', 'cellLengthFixed', 'cellLengthOther'] + bodies(7, 10, 11, 12, 17, 18, 19),
  'C13': ['cellBytesCases', 'cellLengthOther'] + bodies(15, 254, 252, 255) + ['getValuesFromRowSrc', 'getIdentifiesFromRowSrc', 'newColumnDataSrc'],
